@@ -1,5 +1,6 @@
 """C17 - margin histories interpolate within bounds; irregular histories are discarded."""
 import math
+import warnings
 
 import numpy as np
 import pandas as pd
@@ -67,6 +68,13 @@ def make_history(rng, kind, as_int):
             inc_d[-1], inc_g[-1], inc_o[-1] = -inc_d[:-1].sum(), -inc_g[:-1].sum(), -inc_o[:-1].sum()
     dem, gop, oth = np.cumsum(inc_d), np.cumsum(inc_g), np.cumsum(inc_o)
     assert dem.min() >= 0 and gop.min() >= 0 and oth.min() >= 0
+    revert = None
+    if kind == "revert" and n >= 3:
+        # an erroneous upload followed by a return to an EARLIER exact state (non-adjacent identical versions)
+        j_ = int(rng.integers(0, n - 2))
+        k_ = int(rng.integers(j_ + 2, n))
+        dem[k_], gop[k_], oth[k_] = dem[j_], gop[j_], oth[j_]
+        revert = (j_, k_)
     turnout = dem + gop + oth
     last_kind = gen.choice(rng, ["99", "100", "frac", "over", "low"])
     pct_last = {"99": 99.0, "100": 100.0, "frac": float(np.round(rng.uniform(1, 99), 1)), "over": 120.0,
@@ -78,6 +86,8 @@ def make_history(rng, kind, as_int):
     else:
         pct = np.round(turnout / max(turnout[-1], 1) * pct_last, 1)
     pct[-1] = pct_last
+    if revert is not None and revert[1] != n - 1:
+        pct[revert[1]] = pct[revert[0]]
     w = dem + gop
     with np.errstate(all="ignore"):
         nm = np.where(w != 0, (dem - gop) / np.where(w == 0, 1, w), 0.0)
@@ -191,7 +201,7 @@ def _nan(x):
     return x is None or (isinstance(x, float) and math.isnan(x))
 
 
-KINDS = ["regular", "regular", "downward", "bad_batch", "shrinking_two_party", "to_zero"]
+KINDS = ["regular", "regular", "downward", "bad_batch", "shrinking_two_party", "to_zero", "revert"]
 
 
 def cases(tier, seed):
@@ -271,6 +281,40 @@ def run_case(spec, inputs=None):
     out["sig"] = sigs[0] if sigs else None
     out["sets"]["history_classes"] = sigs
     out["sigs"] = sigs
+    # the same histories loaded the way the model loads them: VersionedDataHandler.get_versioned_results() over a
+    # stubbed version store, then compute_versioned_margin_estimate() on the handler's own data -----------------
+    if spec["i"] % 3 == 1 and not out["violations"]:
+        class _Store:
+            def __init__(self, frame):
+                self.frame = frame
+
+            def get(self, path, sample=2):
+                return self.frame.copy()
+
+        raw = df[["postal_code", "geographic_unit_fips", "results_turnout", "results_dem", "results_gop",
+                  "percent_expected_vote", "last_modified"]].copy()
+        raw = raw.iloc[np.random.default_rng(spec["i"]).permutation(len(raw))].reset_index(drop=True)
+        h = object.__new__(VersionedDataHandler)
+        h.election_id, h.office_id, h.geographic_unit_type = "2031-01-01_XX_G", "G", "county"
+        h.estimands, h.sample, h.tz, h.start_date, h.end_date = ["margin"], 1, "UTC", None, None
+        h.s3_client = _Store(raw)
+        try:
+            with warnings.catch_warnings(), np.errstate(all="ignore"):
+                warnings.simplefilter("ignore")
+                h.get_versioned_results()
+                res2 = h.compute_versioned_margin_estimate()
+            by2 = {}
+            for r in res2.to_dict(orient="records"):
+                by2.setdefault(str(r["geographic_unit_fips"]), []).append(r)
+            for fips, hh in df.groupby("geographic_unit_fips", sort=False):
+                vs, _ = judge_unit(fips, hh.sort_values("last_modified").to_dict(orient="records"), by2.get(str(fips), []))
+                for v in vs:
+                    v["key"] = v["key"].replace("C17/", "C17/via-handler/")
+                out["violations"] += vs
+                out["counters"]["histories_via_handler"] = out["counters"].get("histories_via_handler", 0) + 1
+        except Exception as e:  # noqa: BLE001
+            out["violations"].append(dict(key=f"C17/via-handler/raised/{type(e).__name__}", msg=f"{type(e).__name__}: "
+                                          f"{str(e)[:200]}", witness={}))
     # second monitor: flagged units cannot contribute to an extrapolation -------------------------------------
     if spec["i"] % EXTRAP_EVERY == 0 and not out["violations"]:
         v2, c2 = extrapolation_monitor(spec, as_int)
